@@ -203,6 +203,6 @@ pub fn run(ctx: &mut Ctx) {
         ctx.inconclusive("allocator-watch canary not seen: the watch is not live", J::Null);
         return;
     }
-    let n = ctx.n(4000, 20_000);
+    let n = ctx.n(4000, 100_000);
     ctx.family("shapes", n, shape_case);
 }
